@@ -329,6 +329,24 @@ def signer_list_anomalies(hbin, scr, sd):
     return rec, len(behs)
 
 
+def many_denominations(hbin, scr, sd):
+    """C17 with more denominations in the bank supply than the bank's default page holds (120 foreign ones sorting before the
+    native denomination): eFUND is minted and locked, partly unlocked by a registry fee, and every supply query is judged at
+    every block boundary as usual."""
+    import vlib
+    g = {"accts": ["A1", "A2", "A3"], "bal": {a: {"nund": 1000, "other": 1000} for a in ("A1", "A2", "A3")},
+         "ent": {"signers": ["A1"], "min": 1, "limit": 4, "denom": "nund", "wl": ["A3"], "startId": 1},
+         "wrk": {"feeReg": 24, "feeRec": 2, "feePur": 3, "denom": "nund", "def": 2, "max": 4, "startId": 1},
+         "bcn": {"feeReg": 20, "feeRec": 1, "feePur": 5, "denom": "nund", "def": 2, "max": 4, "startId": 1},
+         "str": {"feeNum": 1, "feeDen": 100}, "manyDenoms": 120}
+    BB, EB, CM = {"a": "BeginBlock", "dt": 1000}, {"a": "EndBlock"}, {"a": "Commit"}
+    tx = lambda fee, *m: dict({"a": "DeliverTx", "msgs": list(m)}, **({"fee": {"nund": fee}} if fee else {}))
+    b = [{"a": "InitChain", "g": g}, BB, tx(0, {"t": "Raise", "pur": "A3", "amt": 50, "denom": "nund"}), tx(0, {"t": "Decide", "signer": "A1", "id": 1, "d": "accept"}), EB, CM] + [BB, EB, CM] * 2
+    b += [BB, tx(24, {"t": "WReg", "owner": "A3", "moniker": "m", "name": "n", "genesis": "g", "type": "t"}), EB, CM, BB, EB, CM]
+    rec, _ = vlib.record_behaviours(hbin, [b], scr, name="many-denominations")
+    return rec, 1
+
+
 def extreme_amounts(hbin, scr, sd):
     """C14 'extreme amounts': purchase orders of 2^62 ... 2^200 nund (decimal strings; far beyond TLC's integers) raised,
     accepted, minted and locked, partly unlocked by registry fees, with an export/import at the end.  The genesis is
@@ -657,7 +675,7 @@ PLANS = {
                 rule="begin/end block and commit wrapped in recover (a panic is the observation halted); failed and panicking txs compared on the full projection (only ante effects may remain); multi-message txs with the k-th message failing; extreme amounts (orders of 2^62 ... 2^200 nund as decimal strings, minted, locked, partly unlocked, exported and imported) judged by Trace!ExtremeJudge: no begin/end blocker or commit panics, failed transactions and read-only calls leave every module store byte-identical", assumptions=COMMON_ASSUME),
     "C16": dict(mc=both(ENT_GHOST, REG_GHOST, STR_GHOST, REG_DEEP), sweep=PAR_SWEEP, sim=ENT_SIM, random=rnd("mix", (300, 2), (1500, 10)),
                 rule="TLC breadth-first sweep MC_Par: parameter structures with each field at/inside/outside its bounds through a real governance proposal, followed by probes of every dependent rule; stored parameters re-validated against the stated rules in every observed state", assumptions=COMMON_ASSUME),
-    "C17": dict(mc=FEE_MC, sim=FEE_SIM, sweep=FEE_SWEEP, random=rnd("mix", (300, 3), (2000, 15)),
+    "C17": dict(mc=FEE_MC, extra={"quick": [many_denominations], "thorough": [many_denominations]}, sim=FEE_SIM, sweep=FEE_SWEEP, random=rnd("mix", (300, 3), (2000, 15)),
                 rule="at every block boundary of the corpus the enterprise supply queries (SupplyOf every denomination, EnterpriseSupply, TotalUnlocked, TotalSupply with every page size in key and offset mode) are recorded and checked against bank supply and total locked of the same state", assumptions=COMMON_ASSUME),
     "C07": dict(mc=both(REG_MC), sim=REG_SIM, sweep=REG_SWEEP, random=rnd("reg", (300, 3), (2000, 20)),
                 rule="TLC exhaustive on MC_Reg (registrations, records at lower/equal/next/gapped/huge heights by owners and strangers, purchases incl. Exec-wrapped and huge, gov limit changes); TLC-simulated + seeded random schedules executed on the real app; every record ever accepted is re-queried after every step", assumptions=COMMON_ASSUME),
